@@ -196,7 +196,7 @@ class Recorder:
                 continue
             if c is False:
                 return "unsat", None
-            cons.append(c)
+            cons.append(sj.strip_tags(c))
         total = int(timeout_ms or self.timeout_ms)
         plan = [
             ("smt", lambda: z3.Tactic("smt").solver(), min(total, 15000)),
